@@ -1,7 +1,7 @@
 #!/bin/bash
 # tools/runall.sh [tier] : run every ready check once, print one line per check
 tier=${1:-quick}
-cd "$(dirname "$0")/.."
+cd "$(dirname "$0")/.."; mkdir -p build
 for id in $(cat tools/ready.txt); do
   s=$(date +%s)
   ./check $id $tier > build/runall.$id.out 2>&1; rc=$?
